@@ -64,8 +64,21 @@ func C15(ctx *Ctx) {
 			for _, ev := range r.Events {
 				if ev.Kind == "append" && len(ev.Args) == 2 {
 					if s, ok := ev.Args[1].(*absint.Struct); ok && s.T == lineS {
-						// records appended by the helper itself (not the base directive)
-						if ev.Fn == h.Fn {
+						// records appended while the helper runs (by it or by what it
+						// calls), other than the base directive, which carries no bytes
+						inHelper := ev.Fn == h.Fn
+						for _, fr := range ev.Stack {
+							if fr == h.Fn.String() {
+								inHelper = true
+							}
+						}
+						bc, _ := s.F[fCount].(*absint.Int)
+						if bc != nil {
+							if c, isC := bc.IsConst(); isC && c == 0 && ev.Fn != h.Fn {
+								inHelper = false
+							}
+						}
+						if inHelper {
 							rec = s
 							nApp++
 						}
